@@ -28,7 +28,7 @@ m = {
  "not_applicable": [],
 }
 for pid in props:
-    if pid in CHECKS:
+    if pid in CHECKS and os.path.exists(os.path.join(ROOT, "checks", pid.lower() + ".go")):
         c = CHECKS[pid]
         m["checks"].append({
             "property_id": pid,
